@@ -451,6 +451,22 @@ def lenient_member_unions(ctx, i, rng):
         simple_fixed_point(ctx, q, o.value, "union-of-dataclasses-sharing-a-field", w)
 
 
+def dict_kwargs_strings(ctx, i, rng):
+    """string values in the dict_kwargs of a class that takes **kwargs, among them texts that still read as YAML after one load"""
+    from jsonargparse import ArgumentParser
+
+    from vf.fixtures import zoo
+
+    p = ArgumentParser(exit_on_error=False)
+    p.add_argument("--k", type=zoo.Base)
+    v = rng.choice(["plain", "two words", "\"'5'\"", "'true'", "\"'null'\"", "'[1]'", "x: y"])
+    o = call(p.parse_object, {"k": {"class_path": "vf.fixtures.zoo.WithDictKwargs", "init_args": {"a": 2}, "dict_kwargs": {"extra": v, "n": 3}}})
+    ctx.count("st.dict_kwargs_string_values")
+    ctx.evaluation(("dict_kwargs-strings", v))
+    if o.accepted:
+        simple_fixed_point(ctx, p, o.value, "dict_kwargs-string-value" + ("-quoted-text" if v[:1] in "\"'" else ""), dict(shape="dict_kwargs-strings", value=v))
+
+
 def hostile_string_fixed_points(ctx):
     """every string of the hostile pool (number / bool / null / date / indicator look-alikes) accepted by a str, List[str]
     and Dict[str, str] argument is a fixed point of dump -> parse -> dump in yaml and json"""
@@ -483,5 +499,6 @@ def run_shard(ctx):
     for i, rng in ctx.cases():
         if i % 4 == 1:
             lenient_member_unions(ctx, i, rng)
+            dict_kwargs_strings(ctx, i, rng)
             continue
         case(ctx, i, rng)
